@@ -15,9 +15,12 @@
    that element, the assignment is a duplicate-free list of positions (a permutation), and equal elements are ranked in
    order of appearance (C10_argsort).  ALONG AN AXIS the index form keeps the shape and every lane of the result is the
    rank assignment of the corresponding lane of the input (C10_argsort_axis: the lane theorem with argsort as the body;
-   C10_argsort then characterises each lane); argmax / argmin along an axis are the instances of C08_index_reduce_axis. *)
+   C10_argsort then characterises each lane); argmax / argmin along an axis are the instances of C08_index_reduce_axis.
+   UNIQUE ALONG AN AXIS (C10_unique_axis): when every lane has the same number m of distinct values the result has length
+   m on the axis and every lane is the sorted list of the distinct values of the corresponding input lane; lanes with
+   different numbers of distinct values are refused (C10_unique_axis_ragged — repair F29, see C08_along_ragged). *)
 From Coq Require Import Permutation Sorted.
-From ArrRs Require Import Index Axis Axis_proofs Broadcast_proofs Reduce Along_proofs Sort Sort_proofs Along_uses Order_proofs Argsort_proofs Timsort_proofs Heapsort_proofs Sortkinds_proofs Argsort_axis.
+From ArrRs Require Import Index Axis Axis_proofs Broadcast_proofs Reduce Along_proofs Sort Sort_proofs Along_uses Order_proofs Argsort_proofs Timsort_proofs Heapsort_proofs Sortkinds_proofs Argsort_axis Along_general.
 
 Theorem C10_merge_sort : forall (T : Type) (ltb : T -> T -> bool),
   (forall x y, ltb x y = true -> le ltb x y) -> (forall x y z, le ltb x y -> le ltb y z -> le ltb x z) ->
@@ -176,3 +179,25 @@ Qed.
 Example C10_argsort_axis_nonvacuous :
   argsort_arr Z.ltb Z.eqb 0%Z (mk [3;1;2; 9;7;8]%Z [2;3]) (Some 1%Z) (Ok Quicksort) = Ok (mk [2;0;1;2;0;1] [2;3]).
 Proof. vm_compute. reflexivity. Qed.
+
+Theorem C10_unique_axis : forall (T : Type) (ltb eqb : T -> T -> bool) (d : T) (a : arr T) z m,
+  wf a -> pos_shape (shape a) -> (Z.of_nat (ndim a) < two64)%Z -> axis_ok (ndim a) z ->
+  let ax := norm_nat (ndim a) z in
+  (forall rest, in_range (remove_nth (shape a) ax) rest -> length (dedup eqb (std_sort ltb (elems (lane d a ax rest)))) = m) ->
+  exists R, unique_arr ltb eqb d a (Some z) = Ok R /\ wf R /\ shape R = upd (shape a) ax m /\
+    forall c, in_range (shape R) c ->
+      get d R c = nth (nth ax c 0) (dedup eqb (std_sort ltb (elems (lane d a ax (remove_nth c ax))))) d.
+Proof. exact @unique_axis_spec. Qed.
+
+Theorem C10_unique_axis_ragged : forall (T : Type) (ltb eqb : T -> T -> bool) (d : T) (a : arr T) z r1 r2,
+  wf a -> pos_shape (shape a) -> (Z.of_nat (ndim a) < two64)%Z -> axis_ok (ndim a) z ->
+  let ax := norm_nat (ndim a) z in
+  in_range (remove_nth (shape a) ax) r1 -> in_range (remove_nth (shape a) ax) r2 ->
+  length (dedup eqb (std_sort ltb (elems (lane d a ax r1)))) <> length (dedup eqb (std_sort ltb (elems (lane d a ax r2)))) ->
+  unique_arr ltb eqb d a (Some z) = Err EShapeLen.
+Proof. exact @unique_axis_ragged. Qed.
+
+Example C10_unique_axis_nonvacuous :
+  unique_arr Z.ltb Z.eqb 0%Z (mk [1;2;2; 3;3;4; 6;5;6]%Z [3;3]) (Some 1%Z) = Ok (mk [1;2; 3;4; 5;6]%Z [3;2]) /\
+  unique_arr Z.ltb Z.eqb 0%Z (mk [1;2;2; 3;3;3; 4;5;6]%Z [3;3]) (Some 1%Z) = Err EShapeLen.
+Proof. split; vm_compute; reflexivity. Qed.
